@@ -57,6 +57,10 @@ func (msg *Encrypted) Serialize(client MessageInformator, requireToAck bool) ([]
 }
 
 func DeserializeEncrypted(data, authKey []byte) (*Encrypted, error) {
+	if len(data) < tl.LongLen+tl.Int128Len {
+		return nil, fmt.Errorf("packet is smaller than its header: have %v bytes", len(data))
+	}
+
 	msg := new(Encrypted)
 
 	buf := bytes.NewBuffer(data)
@@ -86,7 +90,7 @@ func DeserializeEncrypted(data, authKey []byte) (*Encrypted, error) {
 	msg.SeqNo = d.PopInt()
 	messageLen := d.PopInt()
 
-	if len(decrypted) < int(messageLen)-(tl.LongLen+tl.LongLen+tl.LongLen+tl.WordLen+tl.WordLen) {
+	if messageLen < 0 || len(decrypted)-(tl.LongLen+tl.LongLen+tl.LongLen+tl.WordLen+tl.WordLen) < int(messageLen) {
 		return nil, fmt.Errorf("message is smaller than it's defining: have %v, but messageLen is %v", len(decrypted), messageLen)
 	}
 
